@@ -152,7 +152,12 @@ Pool == <<
   [src |-> "/abs.fga",            kind |-> "invalid", value |-> ""],
   [src |-> "\"\\\\abs.fga\"",     kind |-> "invalid", value |-> ""],
   [src |-> "x.txt",               kind |-> "suffix",  value |-> ""],
-  [src |-> "a b+c.fga",           kind |-> "ok",      value |-> "a b c.fga"] >>
+  [src |-> "a b+c.fga",           kind |-> "ok",      value |-> "a b c.fga"],
+  \* entries that are empty: the empty string has no .fga extension, a null is no string - "one error per offending entry, never silently filtered"
+  [src |-> "''",                  kind |-> "suffix",  value |-> ""],
+  [src |-> "\"\"",                kind |-> "suffix",  value |-> ""],
+  [src |-> "~",                   kind |-> "nonstr",  value |-> ""],
+  [src |-> "null",                kind |-> "nonstr",  value |-> ""] >>
 
 Styles == [ lead : {"", "# manifest\n", "\n\n# c\n"}, keyfirst : {"schema", "contents"}, squote : {"'1.2'", "\"1.2\""},
             seq : {"block0", "block2", "block4", "flow"}, between : {"", "# note"} ]
